@@ -38,4 +38,14 @@ p='extensions/omniv21/fileformat/csv/format.go'; s=open(p).read()
 s=s.replace("delim == 0 || delim == '\"' ||","delim == 0 ||",1); open(p,'w').write(s)
 PY
 git diff > /verif/selftest/csv_quote_delimiter_allowed.diff; git checkout -- .; echo "csv_quote_delimiter_allowed C03 extensions/omniv21/fileformat/csv/format.go" >> /verif/selftest/INDEX
+python3 - <<'PY'
+p='extensions/omniv21/transform/invokeCustomFunc.go'; s=open(p).read()
+s=s.replace("if fnType.IsVariadic() && argIndex >= lastIndex {","if fnType.IsVariadic() {",1); open(p,'w').write(s)
+PY
+git diff > /verif/selftest/elem_of_any_param.diff; git checkout -- .; echo "elem_of_any_param C03 extensions/omniv21/transform/invokeCustomFunc.go" >> /verif/selftest/INDEX
+python3 - <<'PY'
+p='extensions/omniv21/transform/invokeCustomFunc.go'; s=open(p).read()
+s=s.replace("} else if len(argValues) != numIn {","} else if len(argValues) < numIn {",1); open(p,'w').write(s)
+PY
+git diff > /verif/selftest/arity_check_too_weak.diff; git checkout -- .; echo "arity_check_too_weak C03 extensions/omniv21/transform/invokeCustomFunc.go" >> /verif/selftest/INDEX
 echo "selftest corpus: $(wc -l < /verif/selftest/INDEX) edits"
